@@ -83,6 +83,12 @@ impl Future for Never {
     fn poll(self: Pin<&mut Self>, _: &mut Context<'_>) -> Poll<()> { Poll::Pending }
 }
 
+/// an instrumented future: through `tracing::Instrument` (even numbers) or through `tracing_futures::Instrument` (odd numbers)
+enum Fut {
+    T(Pin<Box<Instrumented<Never>>>),
+    F(Pin<Box<tracing_futures::Instrumented<Never>>>),
+}
+
 type Job = Box<dyn FnOnce() + Send>;
 
 fn worker(tid: usize, rx: Receiver<(Job, Option<Dispatch>)>, tx: Sender<()>) {
@@ -98,7 +104,7 @@ fn worker(tid: usize, rx: Receiver<(Job, Option<Dispatch>)>, tx: Sender<()>) {
 
 struct World {
     handles: HashMap<usize, Span>,
-    futures: HashMap<usize, Pin<Box<Instrumented<Never>>>>,
+    futures: HashMap<usize, Fut>,
 }
 
 fn run_program(line: &str) -> String {
@@ -192,17 +198,27 @@ fn run_program(line: &str) -> String {
                 }
                 "in" => {
                     let s = w.lock().unwrap().handles.remove(&n(1));
-                    if let Some(s) = s { let held = if a.len() > 3 { w.lock().unwrap().handles.remove(&n(3)) } else { None }; w.lock().unwrap().futures.insert(n(2), Box::pin(Never(held).instrument(s))); }
+                    if let Some(s) = s { let held = if a.len() > 3 { w.lock().unwrap().handles.remove(&n(3)) } else { None }; let fut = if n(2) % 2 == 0 { Fut::T(Box::pin(Never(held).instrument(s))) } else { Fut::F(Box::pin(tracing_futures::Instrument::instrument(Never(held), s))) }; w.lock().unwrap().futures.insert(n(2), fut); }
                 }
                 "po" => {
                     let f = w.lock().unwrap().futures.remove(&n(2));
                     if let Some(mut f) = f {
                         let mut cx = Context::from_waker(Waker::noop());
-                        let _ = f.as_mut().poll(&mut cx);
+                        match &mut f { Fut::T(x) => { let _ = x.as_mut().poll(&mut cx); } Fut::F(x) => { let _ = x.as_mut().poll(&mut cx); } }
                         w.lock().unwrap().futures.insert(n(2), f);
                     }
                 }
                 "df" => { let f = w.lock().unwrap().futures.remove(&n(2)); drop(f); }
+                "ii" => {
+                    // `into_inner()`: the wrapper is taken apart (its span handle dropped, no enter / exit), then the inner
+                    // future — with what it owns — is dropped
+                    let f = w.lock().unwrap().futures.remove(&n(2));
+                    match f {
+                        Some(Fut::T(x)) => { let inner = (*Pin::into_inner(x)).into_inner(); drop(inner); }
+                        Some(Fut::F(x)) => { let inner = (*Pin::into_inner(x)).into_inner(); drop(inner); }
+                        None => {}
+                    }
+                }
                 _ => {}
             }
         });
